@@ -256,7 +256,33 @@ class Gen:
         for _ in range(r.randint(1, self.p.get("calls", 2))):
             inline = self.stmts(fs, 1, 1, 2) if r.random() < self.p.get("inline", 0.3) else None
             calls.append({"inline": inline, "seed": r.randrange(1 << 30)})
-        return {"fields": fs, "blocks": blocks, "calls": calls}
+        scn = {"fields": fs, "blocks": blocks, "calls": calls}
+        if self.p.get("rangelists"):
+            # range lists held by the object, referred to by the constraints and edited between the calls
+            def item():
+                if r.random() < 0.5:
+                    return {"single": I(r.randint(-2, 9))}
+                a = r.randint(-2, 8)
+                return {"lo": I(a), "hi": I(a + r.randint(0, 4))}
+            scn["rangelists"] = [[item() for _ in range(r.randint(1, 3))] for _ in range(r.choice([1, 1, 2]))]
+            rand_f = [i for i, f in enumerate(fs) if not f.get("enums")] or [0]
+            for k in range(len(scn["rangelists"])):
+                blocks[r.randrange(len(blocks))]["stmts"].append(
+                    {"k": "expr", "e": {"k": r.choice(["inrl", "inrl", "notinrl"]), "e": F(r.choice(rand_f)), "rl": k}})
+            calls += [{"inline": None, "seed": r.randrange(1 << 30)} for _ in range(r.randint(1, 2))]
+            for c in calls[1:]:
+                ops = []
+                for _ in range(r.choice([0, 1, 1, 2])):
+                    k = r.randrange(len(scn["rangelists"]))
+                    d = r.random()
+                    if d < 0.3:
+                        ops.append({"rl": k, "op": "clear"})
+                    elif d < 0.75:
+                        ops.append({"rl": k, "op": "append", "item": item()})
+                    else:
+                        ops.append({"rl": k, "op": "extend", "items": [item() for _ in range(r.randint(1, 2))]})
+                c["rl_ops"] = ops
+        return scn
 
 
 # ----------------------------------------------------------------------------- execution / comparison
@@ -298,8 +324,23 @@ def scenario_requests(S, scn):
         insts.append(oi)
     dyn = {b["name"]: b["stmts"] for b in scn["blocks"] if b.get("dynamic")}
     fidx = {n: i for i, n in enumerate(names)}
+    # current content of every object's range lists, in the order the library holds it (the constructor stores its
+    # arguments last to first, append() adds at the end)
+    rl_now = [[list(reversed(rl)) for rl in scn.get("rangelists", [])] for _ in insts]
     for call in scn["calls"]:
         o = insts[call.get("inst", 0) % len(insts)]
+        for op in call.get("rl_ops", []):
+            cur = rl_now[call.get("inst", 0) % len(insts)][op["rl"]]
+            rlo = getattr(o, "rl%d" % op["rl"])
+            if op["op"] == "clear":
+                rlo.clear()
+                del cur[:]
+            elif op["op"] == "append":
+                rlo.append(S.rl_item(op["item"]))
+                cur.append(op["item"])
+            elif op["op"] == "extend":
+                rlo.extend([S.rl_item(x) for x in op["items"]])
+                cur.extend(op["items"])
         others = [(x, S.get_values(x, scn)) for x in insts if x is not o]
         before = S.get_values(o, scn)
         o.set_randstate(RandState.mkFromSeed(call["seed"]))
@@ -323,6 +364,9 @@ def scenario_requests(S, scn):
         if call.get("inline") is not None:
             tops = tops + call["inline"]
         tops = expand_dyn(tops, dyn)
+        if scn.get("rangelists"):
+            # for the model a reference to a range list is the membership test over its current content
+            tops = _subst_rl(tops, rl_now[call.get("inst", 0) % len(insts)])
         moved = [k for k, (x, v) in enumerate(others) if S.get_values(x, scn) != v]
         req = {"op": "z.call", "fields": fields, "tops": tops, "rec": recs, "enumLimit": 13,
                "implFinal": after if outcome == "ok" else None,
@@ -335,10 +379,24 @@ def scenario_requests(S, scn):
     return out
 
 
+def _subst_rl(x, content):
+    if isinstance(x, list):
+        return [_subst_rl(y, content) for y in x]
+    if isinstance(x, dict):
+        if x.get("k") in ("inrl", "notinrl"):
+            # the model's `in` mirrors the constructor (arguments last to first): hand it the content reversed
+            return {"k": "in" if x["k"] == "inrl" else "notin", "e": _subst_rl(x["e"], content),
+                    "rl": list(reversed(content[x["rl"]]))}
+        return {k: _subst_rl(v, content) for k, v in x.items()}
+    return x
+
+
 def compare_call(S, scn, ci, c, m):
     """returns (corr_failures, oracle_failures, stats) for one call; m = model answer"""
     corr, orc, st = [], [], {}
     case = {"fields": scn["fields"], "blocks": scn["blocks"], "calls": scn["calls"][:ci + 1]}
+    if scn.get("rangelists"):
+        case["rangelists"] = scn["rangelists"]
     names = [f["name"] for f in scn["fields"]]
 
     def cf(what, model, impl):
